@@ -15,6 +15,7 @@ CONSTANTS
   Ids,           \* flow ids insert_new_flow may draw (non-zero)
   Hosts,         \* target hosts used by opens / binds / datagrams
   MaxWrites,     \* writes per handle
+  Writers,       \* endpoints whose application writes
   Lens,          \* write sizes
   ReadMax,       \* read buffer sizes
   Closers,       \* endpoints whose application may shut down / drop streams
@@ -53,6 +54,7 @@ AOpenPoll(e) ==
 AAccept(e) == st' \in Progress(Accept(st, e))
 AWrite(e) ==
   \E h \in AppHs(e), len \in Lens :
+     /\ e \in Writers
      /\ st.hnd[e][h].woff < MaxWrites   \* woff counts bytes; with Lens >= 1 it also bounds the number of writes
      /\ st' \in Progress(Write(st, e, h, len))
 AWriteZero(e) ==
